@@ -19,7 +19,7 @@ def meta(tier):
                  'and expression built-ins; optional "..." rest parameter) called with 0-5 arguments directly, through a variable, '
                  'through systemPartial and as arraySort / arrayIndexOf callbacks; bodies assign locals that shadow globals, write '
                  'globals through systemGlobalSet and log their parameters; host configurations pre-populate globals that shadow '
-                 'library names with recording stubs; script functions replace library functions. Non-trivial: >= 1 script '
+                 'library names with recording stubs; script functions replace library functions; functions mutating their rest array are bound with systemPartial and called repeatedly; each of the 46 expression built-ins is shadowed by a global / local / host global inside data expressions / script function. Non-trivial: >= 1 script '
                  'function call observed in the log; distinct = distinct (program text, initial globals, host configuration).'),
         'exhaustive': False,
         'assumptions': ['arrayLength/arrayGet are never redefined by generated scripts (the for lowering calls them by name)',
